@@ -17,7 +17,7 @@ from props import c19 as B
 
 F = Fraction
 C0 = 1 / (2 * math.pi)
-MUT_OPS = ("setTable", "setCycles", "setItem", "append", "pop")
+MUT_OPS = ("setTable", "setTableUnsized", "setCycles", "setItem", "append", "pop")
 ALLOC_OPS = ("binary", "scalar", "neg", "normalize", "harmonize")
 USE_OPS = ("read", "getitem", "len", "eq", "table")
 
@@ -47,7 +47,7 @@ def cyc_den(cy):
 class Sim:
     def __init__(self):
         self.lists = []          # lists of Fractions
-        self.objs = []           # [tbl, cached_len, cycles_key]
+        self.objs = []           # [tbl, cached_len, cycles_key, broken]
         self.oscs = []           # [tbl] (captured list id)
         self.bad = False         # a reference to something that does not exist
 
@@ -56,11 +56,11 @@ class Sim:
         k = o["op"]
         L, O, S = self.lists, self.objs, self.oscs
 
-        def obj(i):
+        def obj(i, even_broken=False):
             if not (0 <= i < len(O)) or not (0 <= O[i][0] < len(L)):
                 self.bad = True
                 return None
-            return O[i]
+            return O[i] if even_broken or not O[i][3] else None
 
         def lst(l):
             if not (0 <= l < len(L)):
@@ -70,7 +70,7 @@ class Sim:
 
         def alloc(xs, c):
             L.append(list(xs))
-            O.append([len(L) - 1, len(xs), c])
+            O.append([len(L) - 1, len(xs), c, False])
             return (1, 1, 0)
 
         if k == "newList":
@@ -80,15 +80,20 @@ class Sim:
             xs = lst(o["l"])
             if xs is None:
                 return (0, 0, 0)
-            O.append([o["l"], len(xs), cyc_key(o["c"])])
+            O.append([o["l"], len(xs), cyc_key(o["c"]), False])
             return (0, 1, 0)
         if k == "setTable":
-            ob, xs = obj(o["i"]), lst(o["l"])
+            ob, xs = obj(o["i"], True), lst(o["l"])
             if ob is not None and xs is not None:
-                ob[0], ob[1] = o["l"], len(xs)
+                ob[0], ob[1], ob[3] = o["l"], len(xs), False
+            return (0, 0, 0)
+        if k == "setTableUnsized":
+            ob = obj(o["i"], True)
+            if ob is not None:
+                ob[3] = True
             return (0, 0, 0)
         if k == "setCycles":
-            ob = obj(o["i"])
+            ob = obj(o["i"], True)
             if ob is not None:
                 ob[2] = cyc_key(o["c"])
             return (0, 0, 0)
@@ -150,7 +155,7 @@ class Sim:
                 out.append(acc)
             return alloc(out, a[2])
         if k == "call":
-            a = obj(o["i"])
+            a = obj(o["i"], True)
             if a is None or cyc_den_of_key(a[2], self) == 0:
                 return (0, 0, 0)
             S.append([a[0]])
@@ -160,10 +165,10 @@ class Sim:
                 self.bad = True
             return (0, 0, 0)
         if k in ("getitem", "len", "table"):
-            obj(o["i"])
+            obj(o["i"], True)
             return (0, 0, 0)
         if k == "eq":
-            obj(o["i"]), obj(o["j"])
+            obj(o["i"], True), obj(o["j"], True)
             return (0, 0, 0)
         raise ValueError(k)
 
@@ -208,7 +213,7 @@ def gen_osc_arg(rng, exact, n, p_stream):
 
 
 def gen_hist_case(rng, maxlen, unsafe=False):
-    exact = unsafe or rng.random() < 0.85
+    exact = bool(unsafe) or rng.random() < 0.85
     ops = []
     sim = Sim()
     last_mut = {}                      # object id -> it was changed since its last call
@@ -413,7 +418,17 @@ def gen_hist_case(rng, maxlen, unsafe=False):
     for s in sorted(open_reads):
         if rng.random() < 0.7:
             push({"op": "read", "s": s, "k": open_reads[s]})
-    if unsafe:
+    if unsafe == "unsized":
+        # `tl.table = None`: TypeError, and nothing may have changed
+        i = rng.randrange(len(sim.objs))
+        push({"op": "setTableUnsized", "i": i})
+        for what in rng.sample(["call", "len", "getitem", "table"], 3):
+            use(i, what)
+        if rng.random() < 0.5:                                   # a proper assignment repairs the object
+            push({"op": "setTable", "i": i, "l": rng.randrange(len(sim.lists))})
+            use(i, "call")
+            use(i, "table")
+    elif unsafe:
         i = rng.randrange(len(sim.objs))
         l = sim.objs[i][0]
         if rng.random() < 0.6 or len(sim.lists[l]) < 2:
@@ -446,7 +461,7 @@ def generate(rng, tier, scale):
     maxlen = 14 if tier == "quick" else 26
     cases = []
     for k in range(n):
-        c = gen_hist_case(rng, maxlen, unsafe=(k % 25 == 24))
+        c = gen_hist_case(rng, maxlen, unsafe=("resize" if k % 25 == 24 else "unsized" if k % 25 == 12 else False))
         sim, _ = simulate(c["ops"])
         if not sim.bad:
             cases.append(c)
@@ -471,6 +486,9 @@ def impl(c):
                 r = {"k": "ref", "i": len(objs) - 1}
             elif k == "setTable":
                 objs[o["i"]].table = lists[o["l"]]
+                r = {"k": "unit"}
+            elif k == "setTableUnsized":
+                objs[o["i"]].table = None
                 r = {"k": "unit"}
             elif k == "setCycles":
                 objs[o["i"]].cycles = cyc_py(o["c"])
@@ -583,7 +601,7 @@ def compare(c, io, drv):
     ts = first_diff(c, io, drv, "spec")
     for side, kind in (("model", "model"), ("spec", "spec")):
         t = first_diff(c, io, drv, side)
-        if side == "model" and t is not None and ts is None and resized(c["ops"], t):
+        if side == "model" and t is not None and ts is None and (resized(c["ops"], t) or unsized(c["ops"], t)):
             # after an in-place resize the model (the code as written today, with its cached length,
             # defect D16) and the spec differ; the code as repaired follows the spec: only the spec
             # decides the property there
@@ -605,7 +623,7 @@ def context(ops, t):
         a = sim.step(p)
         if p["op"] == "call" and a[2]:
             called_at[len(sim.oscs) - 1] = (p["i"], u)
-        if p["op"] in ("setCycles", "setTable"):
+        if p["op"] in ("setCycles", "setTable", "setTableUnsized"):
             hist.append((u, p["op"], {p["i"]}))
         elif p["op"] in ("setItem", "append", "pop"):
             hist.append((u, p["op"], {j for j, x in enumerate(sim.objs) if x[0] == p["l"]}))
@@ -629,6 +647,10 @@ def resized(ops, t):
     return any(p["op"] in ("append", "pop") for p in ops[:t])
 
 
+def unsized(ops, t):
+    return any(p["op"] == "setTableUnsized" for p in ops[:t])
+
+
 def classify(c, io, drv):
     t = first_diff(c, io, drv, "spec")
     if t is None:
@@ -637,6 +659,8 @@ def classify(c, io, drv):
         return "TableLookup.hist:none"
     if resized(c["ops"], t):
         return "TableLookup.hist:list-resized-in-place:stale-len"
+    if unsized(c["ops"], t):
+        return "TableLookup.hist:failed-table-assignment:object-changed"
     got = io["obs"][t] if io.get("obs") and t < len(io["obs"]) else {}
     how = got.get("e") or (got.get("st") if got.get("k") == "samples" and got.get("st") not in ("fuel", "stop") else None) or "values"
     return "TableLookup.hist:%s:%s:%s" % (c["ops"][t]["op"], context(c["ops"], t), how)
@@ -668,6 +692,8 @@ def tally(eng, c, io):
     eng.count("hist_objects_sharing_a_list", min(shared, 3))
     if any(o["op"] in ("append", "pop") for o in ops):
         eng.count("hist_resized_in_place", True)
+    if any(o["op"] == "setTableUnsized" for o in ops):
+        eng.count("hist_failed_table_assignment", True)
 
 
 # ----------------------------------------------------------------------------------------------
